@@ -389,8 +389,16 @@ theorem blockInv (p : GProg) (I : St → Prop) (hI : LinkInv p I) : ∀ f, Block
         · split at h
           · cases h; exact hr
           · split at h
-            · exact iVal _ _ _ _ _ _ hr h
-            · exact iVal _ _ _ _ _ _ (hI.reent _ _ hr) h
+            · cases h
+            · split at h
+              · rename_i σ1 v1 hv
+                cases h
+                refine hI.clink _ _ ?_
+                split at hv
+                · exact iVal _ _ _ _ _ _ (hI.clink _ _ hr) hv
+                · exact iVal _ _ _ _ _ _ (hI.clink { σ with reent := true } _ (hI.reent σ true hr)) hv
+              · cases h
+              · cases h
       · -- uref
         split at h
         · split at h
